@@ -22,7 +22,7 @@ WORK = os.path.join(ROOT, "work", "schemacode")
 
 PLAIN = ["a", "b", "ab", "x1", "hello", " ", "Z", "0", "-", "_", "é", "名", "ß", "q q", "#", "{", "}", "$"]
 HOSTILE = ["'", '"', "\\", "\n", '"""', "\\n", "\\b", "\\d", "\\'", "\\\\", "\t", "\r", "\\x41", "\\u00e9",
-           "\\101", "\\0", "''", '""', "\\\n", "\x7f", "​", "\xa0", "\\t", "😀", "\\z", "\\\"", "\\x4", "\\u12"]
+           "\\101", "\\0", "''", '""', "\\\n", "\x7f", "​", "\xa0", "\\t", "😀", "\\z", "\\\"", "\\x4", "\\u12", "\x00", "\x00"]
 # regex-safe pieces (each is a valid regex on its own and in concatenation)
 RE_PLAIN = ["a", "b+", "[0-9]", "x?", "(c|d)", "é", "-", "z*", "[a-c]{1,2}", " "]
 RE_HOSTILE = ["'", '"', "\\d", "\\.", "\\b", "\\\\", "\\n", "\n", '"""', "\t", "\\'", "\\w+", "\\s", "\\x41", "\\101",
@@ -36,7 +36,7 @@ BAD_NAMES = ["class", "my-prop", "1a", "__debug__", "None", "a b", "lambda", "x.
 ANN_KEYS = ["description", "description", "title", "$comment", "examples"]
 ANN_HOSTILE = ["\n    _additional_properties = False", "\n    pass", "\r    x = 1", "# c", "\nclass X:\n    pass", "\n", "\r\n",
                "\n    ", "\n\n", "\'\'\'", "\nq = 1", "\n        y: Integer()"]
-BAD = re.compile(r"\\N|\\U|\\u[dD][89a-fA-F]|\x00")
+BAD = re.compile(r"\\N|\\U|\\u[dD][89a-fA-F]")
 
 
 def payload(rng, p_hostile):
@@ -1038,6 +1038,23 @@ def judge(case, impl, model):
                     msgs.append(f"class name for $ref '#/definitions/{n}' occurs {got_n} times in the generated code, "
                                 f"model expects {want_n}")
                     break
+
+    # -- canon_schema (Python) is the mirror of Schema.ofJson / Schema.toJson (Lean): same canonical schema
+    if model.get("canon") is not None:
+        try:
+            mine = norm_schema(canon_schema(schema))
+            theirs = norm_schema(unwire_schema(model["canon"]))
+            if strip_nonpositional_addl(mine) != strip_nonpositional_addl(theirs):
+                msgs.append("canonical form of the schema: Python mirror " + json.dumps(mine, ensure_ascii=False)[:300]
+                            + " Lean AST " + json.dumps(theirs, ensure_ascii=False)[:300])
+            for (n, d), (n2, d2) in zip(case["defs"], model.get("canonDefs", [])):
+                a, b = norm_schema(canon_schema(d)), norm_schema(unwire_schema(d2))
+                if n != n2 or strip_nonpositional_addl(a) != strip_nonpositional_addl(b):
+                    msgs.append(f"canonical form of definition {n}: Python mirror " + json.dumps(a, ensure_ascii=False)[:300]
+                                + " Lean AST " + json.dumps(b, ensure_ascii=False)[:300])
+                    break
+        except Exception as e:      # a schema outside the AST is reported by the driver already
+            msgs.append(f"canonical form comparison failed: {type(e).__name__}: {e}"[:200])
 
     # -- the emitted TEXT: the model prints what the real generator prints for the canonical schema
     if model.get("oracleOk") is False:
